@@ -76,6 +76,9 @@ func c02HTML(s *flScn) string {
 			return strings.Join(ws, sep)
 		}
 		switch it.Wrap {
+		case 3:
+			// (a hidden box whose content is visible again: the content is laid out AND drawn)
+			b.WriteString(`<div style="visibility:hidden"><div style="visibility:visible">`)
 		case 1:
 			b.WriteString(`<div style="padding:3px;border:1px solid">`)
 		case 2:
@@ -83,11 +86,18 @@ func c02HTML(s *flScn) string {
 		}
 		switch it.Kind {
 		case "p":
-			st := [...]string{"", "break-inside:avoid", "margin:5px 0"}[it.Opt]
+			st := [...]string{"", "break-inside:avoid", "margin:5px 0"}[it.Opt%3]
+			if it.Opt == 3 {
+				st = "break-before:avoid" // (an earlier break must be found when the paragraph does not fit)
+			}
 			fmt.Fprintf(&b, `<p style="%s">%s</p>`, st, words(" "))
 		case "table":
 			st, cell := "", ""
+			tall := ""
 			switch it.Opt {
+			case 3:
+				// cells of two blocks (a line and an empty block): a row can be split between them
+				tall = `<div style="height:14px"></div>`
 			case 1:
 				st, cell = "border-collapse:collapse", "border:1px solid"
 			case 2:
@@ -102,14 +112,14 @@ func c02HTML(s *flScn) string {
 			}
 			b.WriteString("<tbody>")
 			for r := 0; r < it.N; r++ {
-				fmt.Fprintf(&b, `<tr><td style="%s">%s</td><td style="%s">%s</td></tr>`, cell, w(2*r+1), cell, w(2*r+2))
+				fmt.Fprintf(&b, `<tr><td style="%s">%s%s</td><td style="%s">%s%s</td></tr>`, cell, w(2*r+1), tall, cell, w(2*r+2), tall)
 			}
 			b.WriteString("</tbody></table>")
 		case "float":
-			st := [...]string{"float:left", "float:right", "float:left;clear:both"}[it.Opt]
+			st := [...]string{"float:left", "float:right", "float:left;clear:both"}[it.Opt%3]
 			fmt.Fprintf(&b, `<p style="%s;width:50%%">%s</p>`, st, words(" "))
 		case "abs":
-			st := [...]string{"top:5px;right:0", "bottom:0;left:0", ""}[it.Opt]
+			st := [...]string{"top:5px;right:0", "bottom:0;left:0", ""}[it.Opt%3]
 			fmt.Fprintf(&b, `<div style="position:absolute;%s">%s</div>`, st, words("<br>"))
 		case "fixed":
 			fmt.Fprintf(&b, `<div style="position:fixed;bottom:0;right:0">a%dx1</div>`, i)
@@ -124,7 +134,7 @@ func c02HTML(s *flScn) string {
 				open := (it.N <= 2 && k == it.N) || (it.N > 2 && k == 2)
 				closeIt := (it.N <= 2 && k == it.N) || (it.N > 2 && k == it.N-1)
 				if open {
-					b.WriteString([...]string{`<span style="display:inline-block">`, `<span style="display:inline-block;width:100%">`, `<span style="display:inline-block;vertical-align:top;padding:1px">`}[it.Opt])
+					b.WriteString([...]string{`<span style="display:inline-block">`, `<span style="display:inline-block;width:100%">`, `<span style="display:inline-block;vertical-align:top;padding:1px">`}[it.Opt%3])
 				}
 				b.WriteString(w(k))
 				if closeIt {
@@ -142,22 +152,22 @@ func c02HTML(s *flScn) string {
 				fmt.Fprintf(&b, `<div style="columns:2;column-gap:0"><p>%s</p></div>`, words("</p><p>"))
 			}
 		case "flex":
-			st := [...]string{"flex-direction:row;flex-wrap:wrap", "flex-direction:column", "flex-direction:row"}[it.Opt]
+			st := [...]string{"flex-direction:row;flex-wrap:wrap", "flex-direction:column", "flex-direction:row"}[it.Opt%3]
 			fmt.Fprintf(&b, `<div style="display:flex;%s"><div>%s</div></div>`, st, words("</div><div>"))
 		case "list":
-			st := [...]string{"", "margin:3px 0", "break-inside:avoid"}[it.Opt]
+			st := [...]string{"", "margin:3px 0", "break-inside:avoid"}[it.Opt%3]
 			fmt.Fprintf(&b, `<ul><li style="%s">%s</li></ul>`, st, words(fmt.Sprintf(`</li><li style="%s">`, st)))
 		case "pre":
-			st := [...]string{"pre-wrap", "pre-line", "pre"}[it.Opt]
+			st := [...]string{"pre-wrap", "pre-line", "pre"}[it.Opt%3]
 			fmt.Fprintf(&b, `<p style="white-space:%s">%s</p>`, st, words("\n"))
 		case "grid":
-			st := [...]string{"grid-template-columns:1fr 1fr", "grid-template-columns:1fr", "grid-auto-flow:column"}[it.Opt]
+			st := [...]string{"grid-template-columns:1fr 1fr", "grid-template-columns:1fr", "grid-auto-flow:column"}[it.Opt%3]
 			fmt.Fprintf(&b, `<div style="display:grid;%s"><div>%s</div></div>`, st, words("</div><div>"))
 		case "rel":
-			st := [...]string{"top:3px", "left:2px;top:-2px", "bottom:1px"}[it.Opt]
+			st := [...]string{"top:3px", "left:2px;top:-2px", "bottom:1px"}[it.Opt%3]
 			fmt.Fprintf(&b, `<p style="position:relative;%s">%s</p>`, st, words(" "))
 		case "span":
-			st := [...]string{"padding:0 2px;border:1px solid", "box-decoration-break:clone;padding:0 2px", "font-size:6px"}[it.Opt]
+			st := [...]string{"padding:0 2px;border:1px solid", "box-decoration-break:clone;padding:0 2px", "font-size:6px"}[it.Opt%3]
 			if it.N == 1 {
 				fmt.Fprintf(&b, `<p><span style="%s">%s</span></p>`, st, w(1))
 			} else {
@@ -170,10 +180,10 @@ func c02HTML(s *flScn) string {
 		case "glue":
 			// adjacent inline boxes without break opportunity between them (2n+2 words):
 			// <span>w1 .. wa </span><span>w(a+1) .. w(tot-1)</span>w(tot)
-			st := [...]string{"", "", "padding:0 1px"}[it.Opt]
+			st := [...]string{"", "", "padding:0 1px"}[it.Opt%3]
 			tot := 2*it.N + 2
 			a := tot - 3
-			if it.Opt == 1 {
+			if it.Opt%3 == 1 {
 				// a short first line, so that the second line starts inside the first inline box
 				a = 2
 				fmt.Fprintf(&b, `<p style="text-indent:%dpx"><span>`, (s.Cfg.W-5)*8)
@@ -193,7 +203,7 @@ func c02HTML(s *flScn) string {
 			b.WriteString("</span>" + w(tot) + "</p>")
 		case "stack":
 			// an inline box that roots a stacking context and ends with a nested inline box
-			st := [...]string{"position:relative", "opacity:0.5", "position:relative;z-index:1;top:1px"}[it.Opt]
+			st := [...]string{"position:relative", "opacity:0.5", "position:relative;z-index:1;top:1px"}[it.Opt%3]
 			switch {
 			case it.N == 1:
 				fmt.Fprintf(&b, `<p><span style="%s"><b>%s</b></span></p>`, st, w(1))
@@ -215,6 +225,8 @@ func c02HTML(s *flScn) string {
 			b.WriteString(`</div>`)
 		case 2:
 			b.WriteString(`</div></section>`)
+		case 3:
+			b.WriteString(`</div></div>`)
 		}
 	}
 	b.WriteString("</body></html>")
